@@ -236,4 +236,62 @@ theorem target_ready {s : Core} (hf : Fresh s) (blob c : Bytes) :
         cases hm
         exact absurd hA' hA
 
+/-- The two observations of each arrival order. -/
+def obsTlsFirst (s : Core) (blob c : Bytes) : List Obs :=
+  match parse s.role.peer blob with
+  | none => [.errTP, .ok]
+  | some m => if Authd { s with remote := m, initialScid := some c } then [.ok, .ok] else [.ok, .errTP]
+
+def obsPktFirst (s : Core) (blob c : Bytes) : List Obs :=
+  match parse s.role.peer blob with
+  | none => [.ok, .errTP]
+  | some m => if Authd { s with remote := m, initialScid := some c } then [.ok, .ok] else [.ok, .errTP]
+
+theorem recv_then_scid_obs {s : Core} (hf : Fresh s) (blob c : Bytes) :
+    cobs s [.recv blob, .scid c] = obsTlsFirst s blob c := by
+  rw [fresh_eq hf]
+  generalize s.role = role; generalize s.odcid = odcid; generalize s.retryScid = rscid
+  unfold obsTlsFirst
+  simp only [cobs]
+  cases hp : parse role.peer blob with
+  | none => simp [cstep, hp, Core.received]
+  | some m =>
+    have hg : Good role.peer m := parse_good hp
+    have hne : m ≠ [] := good_ne_nil hg
+    have hrec : m.isEmpty = false := by cases m <;> simp_all
+    have e1 : cstep { role := role, odcid := odcid, retryScid := rscid } (.recv blob)
+        = ({ role := role, odcid := odcid, retryScid := rscid, remote := m }, .ok) := by
+      simp only [cstep, hp, Core.received]
+      exact afterAuth_noscid (s := { role := role, odcid := odcid, retryScid := rscid, remote := m }) rfl
+    rw [e1]
+    have e2 : cstep { role := role, odcid := odcid, retryScid := rscid, remote := m } (.scid c)
+        = afterAuth { role := role, odcid := odcid, retryScid := rscid, remote := m, initialScid := some c } := by
+      simp [cstep, Core.received, hrec]
+    rw [e2]
+    rcases afterAuth_target (s := { role := role, odcid := odcid, retryScid := rscid, remote := m, initialScid := some c }) rfl hg with ⟨hA, e⟩ | ⟨hA, e⟩
+    · rw [e]; simp [hA]
+    · rw [e]; simp [hA]
+
+theorem scid_then_recv_obs {s : Core} (hf : Fresh s) (blob c : Bytes) :
+    cobs s [.scid c, .recv blob] = obsPktFirst s blob c := by
+  rw [fresh_eq hf]
+  generalize s.role = role; generalize s.odcid = odcid; generalize s.retryScid = rscid
+  unfold obsPktFirst
+  simp only [cobs]
+  have e1 : cstep { role := role, odcid := odcid, retryScid := rscid } (.scid c)
+      = ({ role := role, odcid := odcid, retryScid := rscid, initialScid := some c }, .ok) := by
+    simp [cstep, Core.received]
+  rw [e1]
+  cases hp : parse role.peer blob with
+  | none => simp [cstep, hp]
+  | some m =>
+    have hg : Good role.peer m := parse_good hp
+    have e2 : cstep { role := role, odcid := odcid, retryScid := rscid, initialScid := some c } (.recv blob)
+        = afterAuth { role := role, odcid := odcid, retryScid := rscid, remote := m, initialScid := some c } := by
+      simp [cstep, hp, Core.received]
+    rw [e2]
+    rcases afterAuth_target (s := { role := role, odcid := odcid, retryScid := rscid, remote := m, initialScid := some c }) rfl hg with ⟨hA, e⟩ | ⟨hA, e⟩
+    · rw [e]; simp [hA]
+    · rw [e]; simp [hA]
+
 end GmQuic.Params
